@@ -90,6 +90,15 @@ add("C33", "floordiv bound to truediv", "nifty/re/tree_math/vector.py", "__floor
     "__floordiv__, __rfloordiv__ = _fwd_rev_binary_op(operator.truediv)", "R33.1")
 add("C33", "reflected op keeps order", "nifty/re/tree_math/vector.py", "        return _broadcast_binary_op(op, rhs, lhs)", "        return _broadcast_binary_op(op, lhs, rhs)", "R33.1")
 
+add("C06", "multi-field norm ignores ord", "nifty/cl/multi_field.py", "        return (nrm ** ord).sum() ** (1./ord)", "        return np.sqrt((nrm ** 2).sum())", "R06.6")
+add("C06", "Field.norm drops ord", "nifty/cl/field.py", "        return self._val.norm(ord=ord)", "        return self._val.norm()", "R06.6")
+add("C06", "weight indexes the shape vector with the sub-domain index", "nifty/cl/field.py",
+    "                new_shape[self._domain.axes[ind][0]:\n                          self._domain.axes[ind][-1]+1] = wgt.shape", "                new_shape[ind] = wgt.size", "R06.8")
+add("C10", "weight indexes the shape vector with the sub-domain index", "nifty/cl/field.py",
+    "                new_shape[self._domain.axes[ind][0]:\n                          self._domain.axes[ind][-1]+1] = wgt.shape", "                new_shape[ind] = wgt.size", "R10.6")
+add("C11", "inverse gamma stores alpha instead of alpha+1", OPS + "energy_operators.py", "        self._alphap1 = alpha+1\n", "        self._alphap1 = alpha\n", "R11.6")
+add("C11", "Bernoulli non-event term in the integer dtype", OPS + "energy_operators.py", ".vdot(self._d-1.)", ".vdot(self._d-1)", "R11.7")
+add("C11", "Poisson energy without the sum of the rates", OPS + "energy_operators.py", "        res = x.sum() - x.log().vdot(self._d)", "        res = -x.log().vdot(self._d)", "R11.6")
 VARIANTS = V
 
 add("C18", "mirror flag of another position", "nifty/cl/minimization/sample_list.py", "        return self._m.flexible_addsub(self._r[i], self._n[i])",
@@ -98,9 +107,27 @@ add("C18", "mirrored sample stored pre-negated", "nifty/cl/minimization/kl_energ
     "                local_samples.append(-yi if neg else yi)\n                local_neg.append(neg)", "R18.1")
 add("C19", "residuals shifted when the mean moves", "nifty/cl/minimization/sample_list.py", "        return ResidualSampleList(mean, self._r, self._n, self.comm)",
     "        return ResidualSampleList(mean, [rr + (self._m - mean) for rr in self._r], self._n, self.comm)", "R19.2")
+add("C06", "multi-field norm ignores ord", "nifty/cl/multi_field.py", "        return (nrm ** ord).sum() ** (1./ord)", "        return np.sqrt((nrm ** 2).sum())", "R06.6")
+add("C06", "Field.norm drops ord", "nifty/cl/field.py", "        return self._val.norm(ord=ord)", "        return self._val.norm()", "R06.6")
+add("C06", "weight indexes the shape vector with the sub-domain index", "nifty/cl/field.py",
+    "                new_shape[self._domain.axes[ind][0]:\n                          self._domain.axes[ind][-1]+1] = wgt.shape", "                new_shape[ind] = wgt.size", "R06.8")
+add("C10", "weight indexes the shape vector with the sub-domain index", "nifty/cl/field.py",
+    "                new_shape[self._domain.axes[ind][0]:\n                          self._domain.axes[ind][-1]+1] = wgt.shape", "                new_shape[ind] = wgt.size", "R10.6")
+add("C11", "inverse gamma stores alpha instead of alpha+1", OPS + "energy_operators.py", "        self._alphap1 = alpha+1\n", "        self._alphap1 = alpha\n", "R11.6")
+add("C11", "Bernoulli non-event term in the integer dtype", OPS + "energy_operators.py", ".vdot(self._d-1.)", ".vdot(self._d-1)", "R11.7")
+add("C11", "Poisson energy without the sum of the rates", OPS + "energy_operators.py", "        res = x.sum() - x.log().vdot(self._d)", "        res = -x.log().vdot(self._d)", "R11.6")
 VARIANTS = V
 
 add("C04", "constants not removed from the position", "nifty/cl/minimization/energy_adapter.py", "            position = position.extract_by_keys(varkeys)\n", "", "R04.1")
+add("C06", "multi-field norm ignores ord", "nifty/cl/multi_field.py", "        return (nrm ** ord).sum() ** (1./ord)", "        return np.sqrt((nrm ** 2).sum())", "R06.6")
+add("C06", "Field.norm drops ord", "nifty/cl/field.py", "        return self._val.norm(ord=ord)", "        return self._val.norm()", "R06.6")
+add("C06", "weight indexes the shape vector with the sub-domain index", "nifty/cl/field.py",
+    "                new_shape[self._domain.axes[ind][0]:\n                          self._domain.axes[ind][-1]+1] = wgt.shape", "                new_shape[ind] = wgt.size", "R06.8")
+add("C10", "weight indexes the shape vector with the sub-domain index", "nifty/cl/field.py",
+    "                new_shape[self._domain.axes[ind][0]:\n                          self._domain.axes[ind][-1]+1] = wgt.shape", "                new_shape[ind] = wgt.size", "R10.6")
+add("C11", "inverse gamma stores alpha instead of alpha+1", OPS + "energy_operators.py", "        self._alphap1 = alpha+1\n", "        self._alphap1 = alpha\n", "R11.6")
+add("C11", "Bernoulli non-event term in the integer dtype", OPS + "energy_operators.py", ".vdot(self._d-1.)", ".vdot(self._d-1)", "R11.7")
+add("C11", "Poisson energy without the sum of the rates", OPS + "energy_operators.py", "        res = x.sum() - x.log().vdot(self._d)", "        res = -x.log().vdot(self._d)", "R11.6")
 VARIANTS = V
 
 # ---- rules added after the seeded rounds 3-5
@@ -140,6 +167,15 @@ add("C33", "max reduces pairs with min", "nifty/re/tree_math/vector_math.py", "m
 add("C33", "norm ord=0 branch removed", "nifty/re/tree_math/vector_math.py", "    if ord == 0:\n", "    if ord is None:\n", "R33.2")
 add("C33", "smap returns input for unmapped output", "nifty/re/custom_map.py", "            out.append(el[0])", "            out.append(unmapped.pop(0))", "R33.3")
 add("C33", "smap moves output to the input axis order", "nifty/re/custom_map.py", "out.append(_moveaxis(el, 0, i))", "out.append(_moveaxis(el, i, 0))", "R33.3")
+add("C06", "multi-field norm ignores ord", "nifty/cl/multi_field.py", "        return (nrm ** ord).sum() ** (1./ord)", "        return np.sqrt((nrm ** 2).sum())", "R06.6")
+add("C06", "Field.norm drops ord", "nifty/cl/field.py", "        return self._val.norm(ord=ord)", "        return self._val.norm()", "R06.6")
+add("C06", "weight indexes the shape vector with the sub-domain index", "nifty/cl/field.py",
+    "                new_shape[self._domain.axes[ind][0]:\n                          self._domain.axes[ind][-1]+1] = wgt.shape", "                new_shape[ind] = wgt.size", "R06.8")
+add("C10", "weight indexes the shape vector with the sub-domain index", "nifty/cl/field.py",
+    "                new_shape[self._domain.axes[ind][0]:\n                          self._domain.axes[ind][-1]+1] = wgt.shape", "                new_shape[ind] = wgt.size", "R10.6")
+add("C11", "inverse gamma stores alpha instead of alpha+1", OPS + "energy_operators.py", "        self._alphap1 = alpha+1\n", "        self._alphap1 = alpha\n", "R11.6")
+add("C11", "Bernoulli non-event term in the integer dtype", OPS + "energy_operators.py", ".vdot(self._d-1.)", ".vdot(self._d-1)", "R11.7")
+add("C11", "Poisson energy without the sum of the rates", OPS + "energy_operators.py", "        res = x.sum() - x.log().vdot(self._d)", "        res = -x.log().vdot(self._d)", "R11.6")
 VARIANTS = V
 
 SDP = "nifty/re/num/stats_distributions.py"
@@ -158,6 +194,15 @@ add("C30", "laplace jacobian branches swapped", SPDP, "np.where(y > 0.5, 1/(1-y)
 add("C30", "inverse gamma mean formula", SPDP, "self._mean = self._q / (self._alpha - 1)", "self._mean = self._q / (self._alpha + 1)", "R30.2")
 add("C30", "gamma alpha from mean and var", SPDP, "            alpha = mean / theta", "            alpha = mean * theta", "R30.2")
 add("C30", "classic lognormal moments", "nifty/cl/utilities.py", "logmean = np.log(mean) - logsigma**2 / 2", "logmean = np.log(mean) + logsigma**2 / 2", "R30.2")
+add("C06", "multi-field norm ignores ord", "nifty/cl/multi_field.py", "        return (nrm ** ord).sum() ** (1./ord)", "        return np.sqrt((nrm ** 2).sum())", "R06.6")
+add("C06", "Field.norm drops ord", "nifty/cl/field.py", "        return self._val.norm(ord=ord)", "        return self._val.norm()", "R06.6")
+add("C06", "weight indexes the shape vector with the sub-domain index", "nifty/cl/field.py",
+    "                new_shape[self._domain.axes[ind][0]:\n                          self._domain.axes[ind][-1]+1] = wgt.shape", "                new_shape[ind] = wgt.size", "R06.8")
+add("C10", "weight indexes the shape vector with the sub-domain index", "nifty/cl/field.py",
+    "                new_shape[self._domain.axes[ind][0]:\n                          self._domain.axes[ind][-1]+1] = wgt.shape", "                new_shape[ind] = wgt.size", "R10.6")
+add("C11", "inverse gamma stores alpha instead of alpha+1", OPS + "energy_operators.py", "        self._alphap1 = alpha+1\n", "        self._alphap1 = alpha\n", "R11.6")
+add("C11", "Bernoulli non-event term in the integer dtype", OPS + "energy_operators.py", ".vdot(self._d-1.)", ".vdot(self._d-1)", "R11.7")
+add("C11", "Poisson energy without the sum of the rates", OPS + "energy_operators.py", "        res = x.sum() - x.log().vdot(self._d)", "        res = -x.log().vdot(self._d)", "R11.6")
 VARIANTS = V
 
 add("C36", "re chi-square divided by size for complex input", "nifty/re/minisanity.py", "    ndof = inp.size if jnp.isrealobj(inp) else 2 * inp.size", "    ndof = inp.size", "R36.1")
@@ -169,6 +214,15 @@ add("C36", "classic mean accumulates squares", "nifty/cl/extra.py", "if (tmp:=np
 add("C36", "classic ignored count drops zeros", "nifty/cl/extra.py", "xnigndof[ii][kk] = n_isnan + n_iszero", "xnigndof[ii][kk] = n_isnan", "R36.2")
 add("C36", "classic slots swapped in the result", "nifty/cl/extra.py", "                'data_residuals': xredchisq[0],\n                'latent_variables': xredchisq[1]",
     "                'data_residuals': xredchisq[1],\n                'latent_variables': xredchisq[0]", "R36.2")
+add("C06", "multi-field norm ignores ord", "nifty/cl/multi_field.py", "        return (nrm ** ord).sum() ** (1./ord)", "        return np.sqrt((nrm ** 2).sum())", "R06.6")
+add("C06", "Field.norm drops ord", "nifty/cl/field.py", "        return self._val.norm(ord=ord)", "        return self._val.norm()", "R06.6")
+add("C06", "weight indexes the shape vector with the sub-domain index", "nifty/cl/field.py",
+    "                new_shape[self._domain.axes[ind][0]:\n                          self._domain.axes[ind][-1]+1] = wgt.shape", "                new_shape[ind] = wgt.size", "R06.8")
+add("C10", "weight indexes the shape vector with the sub-domain index", "nifty/cl/field.py",
+    "                new_shape[self._domain.axes[ind][0]:\n                          self._domain.axes[ind][-1]+1] = wgt.shape", "                new_shape[ind] = wgt.size", "R10.6")
+add("C11", "inverse gamma stores alpha instead of alpha+1", OPS + "energy_operators.py", "        self._alphap1 = alpha+1\n", "        self._alphap1 = alpha\n", "R11.6")
+add("C11", "Bernoulli non-event term in the integer dtype", OPS + "energy_operators.py", ".vdot(self._d-1.)", ".vdot(self._d-1)", "R11.7")
+add("C11", "Poisson energy without the sum of the rates", OPS + "energy_operators.py", "        res = x.sum() - x.log().vdot(self._d)", "        res = -x.log().vdot(self._d)", "R11.6")
 VARIANTS = V
 
 GMP = "nifty/re/gauss_markov.py"
@@ -181,6 +235,15 @@ add("C29", "IWP cross term", GMP, "res = res.at[:, 0].add(0.5 * dt * res[:, 1])"
 add("C29", "IWP drift uses current slope", GMP, "res = res.at[1:, 0].add(dt * res[:-1, 1])", "res = res.at[1:, 0].add(dt * res[1:, 1])", "R29.3")
 add("C29", "generic loop multiplies the wrong row", GMP, "return a.at[i + 1].add(jnp.matmul(d, a[i]))", "return a.at[i + 1].add(jnp.matmul(d, a[i + 1]))", "R29.4")
 add("C29", "generic noise uses drift", GMP, "res = vmap(jnp.matmul, in_ax, 0)(diffamp, xi)", "res = vmap(jnp.matmul, in_ax, 0)(drift, xi)", "R29.4")
+add("C06", "multi-field norm ignores ord", "nifty/cl/multi_field.py", "        return (nrm ** ord).sum() ** (1./ord)", "        return np.sqrt((nrm ** 2).sum())", "R06.6")
+add("C06", "Field.norm drops ord", "nifty/cl/field.py", "        return self._val.norm(ord=ord)", "        return self._val.norm()", "R06.6")
+add("C06", "weight indexes the shape vector with the sub-domain index", "nifty/cl/field.py",
+    "                new_shape[self._domain.axes[ind][0]:\n                          self._domain.axes[ind][-1]+1] = wgt.shape", "                new_shape[ind] = wgt.size", "R06.8")
+add("C10", "weight indexes the shape vector with the sub-domain index", "nifty/cl/field.py",
+    "                new_shape[self._domain.axes[ind][0]:\n                          self._domain.axes[ind][-1]+1] = wgt.shape", "                new_shape[ind] = wgt.size", "R10.6")
+add("C11", "inverse gamma stores alpha instead of alpha+1", OPS + "energy_operators.py", "        self._alphap1 = alpha+1\n", "        self._alphap1 = alpha\n", "R11.6")
+add("C11", "Bernoulli non-event term in the integer dtype", OPS + "energy_operators.py", ".vdot(self._d-1.)", ".vdot(self._d-1)", "R11.7")
+add("C11", "Poisson energy without the sum of the rates", OPS + "energy_operators.py", "        res = x.sum() - x.log().vdot(self._d)", "        res = -x.log().vdot(self._d)", "R11.6")
 VARIANTS = V
 
 add("C35", "mask stores the flags themselves", OPS + "mask_operator.py", "self._flags = np.logical_not(flags.val)", "self._flags = flags.val.astype(bool)", "R35.1")
@@ -194,12 +257,30 @@ add("C35", "regridding index not clamped", OPS + "regridding_operator.py", "self
 add("C35", "interpolator truncates instead of floor", OPS + "linear_interpolation.py", "pos = np.floor(pos).astype(np.int64)", "pos = pos.astype(np.int64)", "R35.4")
 add("C35", "interpolator weight without abs complement", OPS + "linear_interpolation.py", "np.abs(1 - mg[:, i].reshape(-1, 1) - excess)", "np.abs(mg[:, i].reshape(-1, 1) - excess)", "R35.4")
 add("C35", "interpolator adjoint uses matvec", OPS + "linear_interpolation.py", "res = self._sop.rmatvec(x).reshape(self.domain.shape)", "res = self._sop.matvec(x).reshape(self.domain.shape)", "R35.4")
+add("C06", "multi-field norm ignores ord", "nifty/cl/multi_field.py", "        return (nrm ** ord).sum() ** (1./ord)", "        return np.sqrt((nrm ** 2).sum())", "R06.6")
+add("C06", "Field.norm drops ord", "nifty/cl/field.py", "        return self._val.norm(ord=ord)", "        return self._val.norm()", "R06.6")
+add("C06", "weight indexes the shape vector with the sub-domain index", "nifty/cl/field.py",
+    "                new_shape[self._domain.axes[ind][0]:\n                          self._domain.axes[ind][-1]+1] = wgt.shape", "                new_shape[ind] = wgt.size", "R06.8")
+add("C10", "weight indexes the shape vector with the sub-domain index", "nifty/cl/field.py",
+    "                new_shape[self._domain.axes[ind][0]:\n                          self._domain.axes[ind][-1]+1] = wgt.shape", "                new_shape[ind] = wgt.size", "R10.6")
+add("C11", "inverse gamma stores alpha instead of alpha+1", OPS + "energy_operators.py", "        self._alphap1 = alpha+1\n", "        self._alphap1 = alpha\n", "R11.6")
+add("C11", "Bernoulli non-event term in the integer dtype", OPS + "energy_operators.py", ".vdot(self._d-1.)", ".vdot(self._d-1)", "R11.7")
+add("C11", "Poisson energy without the sum of the rates", OPS + "energy_operators.py", "        res = x.sum() - x.log().vdot(self._d)", "        res = -x.log().vdot(self._d)", "R11.6")
 VARIANTS = V
 
 add("C24", "temporary state file opened exclusively", "nifty/re/optimize_kl.py", '            with open(tmp_fn, "wb") as f:', '            with open(tmp_fn, "xb") as f:', "R24.1")
 add("C24", "sampler cached on the instance", "nifty/re/optimize_kl.py", "        sampler = Partial(self.draw_linear_residual, **kwargs)\n",
     "        sampler = Partial(self.draw_linear_residual, **kwargs)\n        self._last_sampler = sampler\n", "R24.4")
 add("C01", "sandwich scaling shortcut squares a complex factor", OPS + "sandwich_operator.py", "fct = abs(bun._factor)**2", "fct = bun._factor**2", "R01.4")
+add("C06", "multi-field norm ignores ord", "nifty/cl/multi_field.py", "        return (nrm ** ord).sum() ** (1./ord)", "        return np.sqrt((nrm ** 2).sum())", "R06.6")
+add("C06", "Field.norm drops ord", "nifty/cl/field.py", "        return self._val.norm(ord=ord)", "        return self._val.norm()", "R06.6")
+add("C06", "weight indexes the shape vector with the sub-domain index", "nifty/cl/field.py",
+    "                new_shape[self._domain.axes[ind][0]:\n                          self._domain.axes[ind][-1]+1] = wgt.shape", "                new_shape[ind] = wgt.size", "R06.8")
+add("C10", "weight indexes the shape vector with the sub-domain index", "nifty/cl/field.py",
+    "                new_shape[self._domain.axes[ind][0]:\n                          self._domain.axes[ind][-1]+1] = wgt.shape", "                new_shape[ind] = wgt.size", "R10.6")
+add("C11", "inverse gamma stores alpha instead of alpha+1", OPS + "energy_operators.py", "        self._alphap1 = alpha+1\n", "        self._alphap1 = alpha\n", "R11.6")
+add("C11", "Bernoulli non-event term in the integer dtype", OPS + "energy_operators.py", ".vdot(self._d-1.)", ".vdot(self._d-1)", "R11.7")
+add("C11", "Poisson energy without the sum of the rates", OPS + "energy_operators.py", "        res = x.sum() - x.log().vdot(self._d)", "        res = -x.log().vdot(self._d)", "R11.6")
 VARIANTS = V
 
 add("C23", "bcast master is rank zero", "nifty/cl/utilities.py", "    master = comm.Get_rank() == root", "    master = comm.Get_rank() == 0", "R23.6")
@@ -207,17 +288,44 @@ add("C23", "send skips the contiguity copy for Fortran order", "nifty/cl/utiliti
     "        if not obj.flags.forc:\n            shp_orig = obj.shape\n            obj = np.ascontiguousarray(obj).reshape(shp_orig)\n", "R23.5")
 add("C23", "send asserts before coercing", "nifty/cl/utilities.py", "    if dtype is np.ndarray:\n        # Partial sums of 0-d arrays are numpy scalars\n        obj = np.asarray(obj)\n    assert isinstance(obj, dtype)",
     "    assert isinstance(obj, dtype)", "R23.5")
+add("C06", "multi-field norm ignores ord", "nifty/cl/multi_field.py", "        return (nrm ** ord).sum() ** (1./ord)", "        return np.sqrt((nrm ** 2).sum())", "R06.6")
+add("C06", "Field.norm drops ord", "nifty/cl/field.py", "        return self._val.norm(ord=ord)", "        return self._val.norm()", "R06.6")
+add("C06", "weight indexes the shape vector with the sub-domain index", "nifty/cl/field.py",
+    "                new_shape[self._domain.axes[ind][0]:\n                          self._domain.axes[ind][-1]+1] = wgt.shape", "                new_shape[ind] = wgt.size", "R06.8")
+add("C10", "weight indexes the shape vector with the sub-domain index", "nifty/cl/field.py",
+    "                new_shape[self._domain.axes[ind][0]:\n                          self._domain.axes[ind][-1]+1] = wgt.shape", "                new_shape[ind] = wgt.size", "R10.6")
+add("C11", "inverse gamma stores alpha instead of alpha+1", OPS + "energy_operators.py", "        self._alphap1 = alpha+1\n", "        self._alphap1 = alpha\n", "R11.6")
+add("C11", "Bernoulli non-event term in the integer dtype", OPS + "energy_operators.py", ".vdot(self._d-1.)", ".vdot(self._d-1)", "R11.7")
+add("C11", "Poisson energy without the sum of the rates", OPS + "energy_operators.py", "        res = x.sum() - x.log().vdot(self._d)", "        res = -x.log().vdot(self._d)", "R11.6")
 VARIANTS = V
 
 add("C07", "distributor reuses its output buffer", OPS + "distributors.py", "        oarr = np.empty_like(arr, shape=self._pshape, dtype=x.dtype)\n        oarr[()] = arr[(slice(None), self._dofdex, slice(None))]",
     "        if getattr(self, '_obuf', None) is None:\n            self._obuf = np.empty_like(arr, shape=self._pshape, dtype=x.dtype)\n        oarr = self._obuf\n        oarr[()] = arr[(slice(None), self._dofdex, slice(None))]", "R07.7")
 add("C07", "AnyArray strips subclasses with asarray", "nifty/cl/any_array.py", "        if np.isscalar(arr):\n            arr = np.array(arr)\n",
     "        if np.isscalar(arr):\n            arr = np.array(arr)\n        elif isinstance(arr, np.ndarray) and type(arr) is not np.ndarray:\n            arr = np.asarray(arr)\n", "R07.6")
+add("C06", "multi-field norm ignores ord", "nifty/cl/multi_field.py", "        return (nrm ** ord).sum() ** (1./ord)", "        return np.sqrt((nrm ** 2).sum())", "R06.6")
+add("C06", "Field.norm drops ord", "nifty/cl/field.py", "        return self._val.norm(ord=ord)", "        return self._val.norm()", "R06.6")
+add("C06", "weight indexes the shape vector with the sub-domain index", "nifty/cl/field.py",
+    "                new_shape[self._domain.axes[ind][0]:\n                          self._domain.axes[ind][-1]+1] = wgt.shape", "                new_shape[ind] = wgt.size", "R06.8")
+add("C10", "weight indexes the shape vector with the sub-domain index", "nifty/cl/field.py",
+    "                new_shape[self._domain.axes[ind][0]:\n                          self._domain.axes[ind][-1]+1] = wgt.shape", "                new_shape[ind] = wgt.size", "R10.6")
+add("C11", "inverse gamma stores alpha instead of alpha+1", OPS + "energy_operators.py", "        self._alphap1 = alpha+1\n", "        self._alphap1 = alpha\n", "R11.6")
+add("C11", "Bernoulli non-event term in the integer dtype", OPS + "energy_operators.py", ".vdot(self._d-1.)", ".vdot(self._d-1)", "R11.7")
+add("C11", "Poisson energy without the sum of the rates", OPS + "energy_operators.py", "        res = x.sum() - x.log().vdot(self._d)", "        res = -x.log().vdot(self._d)", "R11.6")
 VARIANTS = V
 
 add("C21", "repeated iteration aliases the previous seed sequence", "nifty/cl/minimization/optimize_kl.py", "            sseqs[iglobal] = sseq_dup", "            sseqs[iglobal] = sseqs[iglobal-1]", "R21.7")
 add("C21", "resume rebuilds the state without the key", "nifty/re/optimize_kl.py", "        opt_vi_st = opt_vi_st._replace(config=opt_vi_st_init.config)",
     "        opt_vi_st = opt_vi_st_init._replace(nit=opt_vi_st.nit, sample_state=opt_vi_st.sample_state, minimization_state=opt_vi_st.minimization_state)", "R21.8")
+add("C06", "multi-field norm ignores ord", "nifty/cl/multi_field.py", "        return (nrm ** ord).sum() ** (1./ord)", "        return np.sqrt((nrm ** 2).sum())", "R06.6")
+add("C06", "Field.norm drops ord", "nifty/cl/field.py", "        return self._val.norm(ord=ord)", "        return self._val.norm()", "R06.6")
+add("C06", "weight indexes the shape vector with the sub-domain index", "nifty/cl/field.py",
+    "                new_shape[self._domain.axes[ind][0]:\n                          self._domain.axes[ind][-1]+1] = wgt.shape", "                new_shape[ind] = wgt.size", "R06.8")
+add("C10", "weight indexes the shape vector with the sub-domain index", "nifty/cl/field.py",
+    "                new_shape[self._domain.axes[ind][0]:\n                          self._domain.axes[ind][-1]+1] = wgt.shape", "                new_shape[ind] = wgt.size", "R10.6")
+add("C11", "inverse gamma stores alpha instead of alpha+1", OPS + "energy_operators.py", "        self._alphap1 = alpha+1\n", "        self._alphap1 = alpha\n", "R11.6")
+add("C11", "Bernoulli non-event term in the integer dtype", OPS + "energy_operators.py", ".vdot(self._d-1.)", ".vdot(self._d-1)", "R11.7")
+add("C11", "Poisson energy without the sum of the rates", OPS + "energy_operators.py", "        res = x.sum() - x.log().vdot(self._d)", "        res = -x.log().vdot(self._d)", "R11.6")
 VARIANTS = V
 
 GRP = "nifty/re/multi_grid/grid.py"
@@ -230,6 +338,15 @@ add("C31", "open coord2index adds the shift", GRP, "index = coord * shp[slc] - s
 add("C31", "open children clip off by one", GRP, "return super().children(index.clip(lo, hi - 1) - lo)", "return super().children(index.clip(lo, hi) - lo)", "R31.2")
 add("C31", "flat children converted at the wrong level", GRP, "        return self.index2flatindex(children, +1)", "        return self.index2flatindex(children)", "R31.3")
 add("C31", "flat parent level shift sign", GRP, "        return self.index2flatindex(window, -1)", "        return self.index2flatindex(window, +1)", "R31.3")
+add("C06", "multi-field norm ignores ord", "nifty/cl/multi_field.py", "        return (nrm ** ord).sum() ** (1./ord)", "        return np.sqrt((nrm ** 2).sum())", "R06.6")
+add("C06", "Field.norm drops ord", "nifty/cl/field.py", "        return self._val.norm(ord=ord)", "        return self._val.norm()", "R06.6")
+add("C06", "weight indexes the shape vector with the sub-domain index", "nifty/cl/field.py",
+    "                new_shape[self._domain.axes[ind][0]:\n                          self._domain.axes[ind][-1]+1] = wgt.shape", "                new_shape[ind] = wgt.size", "R06.8")
+add("C10", "weight indexes the shape vector with the sub-domain index", "nifty/cl/field.py",
+    "                new_shape[self._domain.axes[ind][0]:\n                          self._domain.axes[ind][-1]+1] = wgt.shape", "                new_shape[ind] = wgt.size", "R10.6")
+add("C11", "inverse gamma stores alpha instead of alpha+1", OPS + "energy_operators.py", "        self._alphap1 = alpha+1\n", "        self._alphap1 = alpha\n", "R11.6")
+add("C11", "Bernoulli non-event term in the integer dtype", OPS + "energy_operators.py", ".vdot(self._d-1.)", ".vdot(self._d-1)", "R11.7")
+add("C11", "Poisson energy without the sum of the rates", OPS + "energy_operators.py", "        res = x.sum() - x.log().vdot(self._d)", "        res = -x.log().vdot(self._d)", "R11.6")
 VARIANTS = V
 
 LZP = "nifty/re/num/lanczos.py"
@@ -246,6 +363,15 @@ add("C34", "jax ELBO trace-log sign", "nifty/re/evidence_lower_bound.py", "     
 add("C34", "jax analytic prior keeps the full Hamiltonian", "nifty/re/evidence_lower_bound.py", "sample_energy = likelihood if analytic_prior_term else hamiltonian", "sample_energy = hamiltonian", "R34.3")
 add("C34", "classic prior term forgets the mean", "nifty/cl/evidence_lower_bound.py", "prior_term = Field.scalar(0.5 * (trace_inv_total + prior_mean_sq))", "prior_term = Field.scalar(0.5 * trace_inv_total)", "R34.3")
 add("C34", "classic lower bound adds the lower error", "nifty/cl/evidence_lower_bound.py", 'elbo_lw = elbo_mean - elbo_var.sqrt() - stats["lower_error"]', 'elbo_lw = elbo_mean - elbo_var.sqrt() + stats["lower_error"]', "R34.3")
+add("C06", "multi-field norm ignores ord", "nifty/cl/multi_field.py", "        return (nrm ** ord).sum() ** (1./ord)", "        return np.sqrt((nrm ** 2).sum())", "R06.6")
+add("C06", "Field.norm drops ord", "nifty/cl/field.py", "        return self._val.norm(ord=ord)", "        return self._val.norm()", "R06.6")
+add("C06", "weight indexes the shape vector with the sub-domain index", "nifty/cl/field.py",
+    "                new_shape[self._domain.axes[ind][0]:\n                          self._domain.axes[ind][-1]+1] = wgt.shape", "                new_shape[ind] = wgt.size", "R06.8")
+add("C10", "weight indexes the shape vector with the sub-domain index", "nifty/cl/field.py",
+    "                new_shape[self._domain.axes[ind][0]:\n                          self._domain.axes[ind][-1]+1] = wgt.shape", "                new_shape[ind] = wgt.size", "R10.6")
+add("C11", "inverse gamma stores alpha instead of alpha+1", OPS + "energy_operators.py", "        self._alphap1 = alpha+1\n", "        self._alphap1 = alpha\n", "R11.6")
+add("C11", "Bernoulli non-event term in the integer dtype", OPS + "energy_operators.py", ".vdot(self._d-1.)", ".vdot(self._d-1)", "R11.7")
+add("C11", "Poisson energy without the sum of the rates", OPS + "energy_operators.py", "        res = x.sum() - x.log().vdot(self._d)", "        res = -x.log().vdot(self._d)", "R11.6")
 VARIANTS = V
 
 add("C20", "wiener filter dereferences the None default", "nifty/re/evi.py", "    draw_linear_kwargs = {} if draw_linear_kwargs is None else draw_linear_kwargs\n", "", "R20.2")
@@ -255,18 +381,54 @@ add("C20", "data-space operator without the noise", "nifty/re/evi.py", "        
 add("C20", "transpose not conjugated", "nifty/re/evi.py", "    forward_lin_T = _functional_conj(forward_lin_T)\n\n    if signal_space:", "\n    if signal_space:", "R20.1")
 add("C20", "classic curvature uses S instead of its inverse", "nifty/cl/library/wiener_filter_curvature.py", "    Sinv = S.inverse", "    Sinv = S", "R20.3")
 add("C20", "classic curvature sandwiches N instead of its inverse", "nifty/cl/library/wiener_filter_curvature.py", "M = SandwichOperator.make(R, N.inverse)", "M = SandwichOperator.make(R, N)", "R20.3")
+add("C06", "multi-field norm ignores ord", "nifty/cl/multi_field.py", "        return (nrm ** ord).sum() ** (1./ord)", "        return np.sqrt((nrm ** 2).sum())", "R06.6")
+add("C06", "Field.norm drops ord", "nifty/cl/field.py", "        return self._val.norm(ord=ord)", "        return self._val.norm()", "R06.6")
+add("C06", "weight indexes the shape vector with the sub-domain index", "nifty/cl/field.py",
+    "                new_shape[self._domain.axes[ind][0]:\n                          self._domain.axes[ind][-1]+1] = wgt.shape", "                new_shape[ind] = wgt.size", "R06.8")
+add("C10", "weight indexes the shape vector with the sub-domain index", "nifty/cl/field.py",
+    "                new_shape[self._domain.axes[ind][0]:\n                          self._domain.axes[ind][-1]+1] = wgt.shape", "                new_shape[ind] = wgt.size", "R10.6")
+add("C11", "inverse gamma stores alpha instead of alpha+1", OPS + "energy_operators.py", "        self._alphap1 = alpha+1\n", "        self._alphap1 = alpha\n", "R11.6")
+add("C11", "Bernoulli non-event term in the integer dtype", OPS + "energy_operators.py", ".vdot(self._d-1.)", ".vdot(self._d-1)", "R11.7")
+add("C11", "Poisson energy without the sum of the rates", OPS + "energy_operators.py", "        res = x.sum() - x.log().vdot(self._d)", "        res = -x.log().vdot(self._d)", "R11.6")
 VARIANTS = V
 
 add("C27", "sample list save refuses to overwrite under save_strategy all", "nifty/cl/minimization/optimize_kl.py", "                    overwrite=True)\n\n            if _MPI_master(comm(iglobal)):", "                    overwrite=save_strategy == 'latest')\n\n            if _MPI_master(comm(iglobal)):", "R27.8")
 add("C27", "callback arity from the code object", "nifty/cl/minimization/optimize_kl.py", "    from inspect import signature\n    return len(signature(func).parameters)",
     "    code = getattr(func, '__code__', None)\n    if code is not None:\n        return code.co_argcount\n    from inspect import signature\n    return len(signature(func).parameters)", "R27.9")
+add("C06", "multi-field norm ignores ord", "nifty/cl/multi_field.py", "        return (nrm ** ord).sum() ** (1./ord)", "        return np.sqrt((nrm ** 2).sum())", "R06.6")
+add("C06", "Field.norm drops ord", "nifty/cl/field.py", "        return self._val.norm(ord=ord)", "        return self._val.norm()", "R06.6")
+add("C06", "weight indexes the shape vector with the sub-domain index", "nifty/cl/field.py",
+    "                new_shape[self._domain.axes[ind][0]:\n                          self._domain.axes[ind][-1]+1] = wgt.shape", "                new_shape[ind] = wgt.size", "R06.8")
+add("C10", "weight indexes the shape vector with the sub-domain index", "nifty/cl/field.py",
+    "                new_shape[self._domain.axes[ind][0]:\n                          self._domain.axes[ind][-1]+1] = wgt.shape", "                new_shape[ind] = wgt.size", "R10.6")
+add("C11", "inverse gamma stores alpha instead of alpha+1", OPS + "energy_operators.py", "        self._alphap1 = alpha+1\n", "        self._alphap1 = alpha\n", "R11.6")
+add("C11", "Bernoulli non-event term in the integer dtype", OPS + "energy_operators.py", ".vdot(self._d-1.)", ".vdot(self._d-1)", "R11.7")
+add("C11", "Poisson energy without the sum of the rates", OPS + "energy_operators.py", "        res = x.sum() - x.log().vdot(self._d)", "        res = -x.log().vdot(self._d)", "R11.6")
 VARIANTS = V
 
 add("C21", "seed preparation starts at the resume index", "nifty/cl/minimization/optimize_kl.py", "    for iglobal in range(total_iterations):\n        if not fresh_stochasticity(iglobal):", "    for iglobal in range(initial_index, total_iterations):\n        if not fresh_stochasticity(iglobal):", "R21.9")
 add("C25", "seed preparation starts at the resume index", "nifty/cl/minimization/optimize_kl.py", "    for iglobal in range(total_iterations):\n        if not fresh_stochasticity(iglobal):", "    for iglobal in range(initial_index, total_iterations):\n        if not fresh_stochasticity(iglobal):", "R25.5")
+add("C06", "multi-field norm ignores ord", "nifty/cl/multi_field.py", "        return (nrm ** ord).sum() ** (1./ord)", "        return np.sqrt((nrm ** 2).sum())", "R06.6")
+add("C06", "Field.norm drops ord", "nifty/cl/field.py", "        return self._val.norm(ord=ord)", "        return self._val.norm()", "R06.6")
+add("C06", "weight indexes the shape vector with the sub-domain index", "nifty/cl/field.py",
+    "                new_shape[self._domain.axes[ind][0]:\n                          self._domain.axes[ind][-1]+1] = wgt.shape", "                new_shape[ind] = wgt.size", "R06.8")
+add("C10", "weight indexes the shape vector with the sub-domain index", "nifty/cl/field.py",
+    "                new_shape[self._domain.axes[ind][0]:\n                          self._domain.axes[ind][-1]+1] = wgt.shape", "                new_shape[ind] = wgt.size", "R10.6")
+add("C11", "inverse gamma stores alpha instead of alpha+1", OPS + "energy_operators.py", "        self._alphap1 = alpha+1\n", "        self._alphap1 = alpha\n", "R11.6")
+add("C11", "Bernoulli non-event term in the integer dtype", OPS + "energy_operators.py", ".vdot(self._d-1.)", ".vdot(self._d-1)", "R11.7")
+add("C11", "Poisson energy without the sum of the rates", OPS + "energy_operators.py", "        res = x.sum() - x.log().vdot(self._d)", "        res = -x.log().vdot(self._d)", "R11.6")
 VARIANTS = V
 
 add("C23", "bcast sends the array as it is", "nifty/cl/utilities.py", "        data = (np.ascontiguousarray(obj).reshape(shape) if master\n                else np.empty(shape, dtype))", "        data = obj if master else np.empty(shape, dtype)", "R23.7")
+add("C06", "multi-field norm ignores ord", "nifty/cl/multi_field.py", "        return (nrm ** ord).sum() ** (1./ord)", "        return np.sqrt((nrm ** 2).sum())", "R06.6")
+add("C06", "Field.norm drops ord", "nifty/cl/field.py", "        return self._val.norm(ord=ord)", "        return self._val.norm()", "R06.6")
+add("C06", "weight indexes the shape vector with the sub-domain index", "nifty/cl/field.py",
+    "                new_shape[self._domain.axes[ind][0]:\n                          self._domain.axes[ind][-1]+1] = wgt.shape", "                new_shape[ind] = wgt.size", "R06.8")
+add("C10", "weight indexes the shape vector with the sub-domain index", "nifty/cl/field.py",
+    "                new_shape[self._domain.axes[ind][0]:\n                          self._domain.axes[ind][-1]+1] = wgt.shape", "                new_shape[ind] = wgt.size", "R10.6")
+add("C11", "inverse gamma stores alpha instead of alpha+1", OPS + "energy_operators.py", "        self._alphap1 = alpha+1\n", "        self._alphap1 = alpha\n", "R11.6")
+add("C11", "Bernoulli non-event term in the integer dtype", OPS + "energy_operators.py", ".vdot(self._d-1.)", ".vdot(self._d-1)", "R11.7")
+add("C11", "Poisson energy without the sum of the rates", OPS + "energy_operators.py", "        res = x.sum() - x.log().vdot(self._d)", "        res = -x.log().vdot(self._d)", "R11.6")
 VARIANTS = V
 
 add("C14", "controller keeps its convergence counter between runs", "nifty/cl/minimization/iteration_controllers.py",
@@ -281,6 +443,15 @@ add("C17", "compiled line search halves after the reset", "nifty/re/optimize.py"
     "        grad_scaling = jnp.where(status < -1, grad_scaling / 2, grad_scaling)\n\n        do_reset = (i == 5) & (status < -1)\n        reset = jnp.where(do_reset, True, reset)\n        grad_scaling = jnp.where(do_reset, 1.0, grad_scaling)\n",
     "\n        do_reset = (i == 5) & (status < -1)\n        reset = jnp.where(do_reset, True, reset)\n        grad_scaling = jnp.where(do_reset, 1.0, grad_scaling)\n        grad_scaling = jnp.where(status < -1, grad_scaling / 2, grad_scaling)\n", "R17.4")
 add("C17", "trust region takes the farther boundary point", "nifty/re/conjugate_gradient.py", "p_boundary = where(soa(pa) < soa(pb), pa, pb)", "p_boundary = where(vdot(z, d) > 0, pa, pb)", "R17.5")
+add("C06", "multi-field norm ignores ord", "nifty/cl/multi_field.py", "        return (nrm ** ord).sum() ** (1./ord)", "        return np.sqrt((nrm ** 2).sum())", "R06.6")
+add("C06", "Field.norm drops ord", "nifty/cl/field.py", "        return self._val.norm(ord=ord)", "        return self._val.norm()", "R06.6")
+add("C06", "weight indexes the shape vector with the sub-domain index", "nifty/cl/field.py",
+    "                new_shape[self._domain.axes[ind][0]:\n                          self._domain.axes[ind][-1]+1] = wgt.shape", "                new_shape[ind] = wgt.size", "R06.8")
+add("C10", "weight indexes the shape vector with the sub-domain index", "nifty/cl/field.py",
+    "                new_shape[self._domain.axes[ind][0]:\n                          self._domain.axes[ind][-1]+1] = wgt.shape", "                new_shape[ind] = wgt.size", "R10.6")
+add("C11", "inverse gamma stores alpha instead of alpha+1", OPS + "energy_operators.py", "        self._alphap1 = alpha+1\n", "        self._alphap1 = alpha\n", "R11.6")
+add("C11", "Bernoulli non-event term in the integer dtype", OPS + "energy_operators.py", ".vdot(self._d-1.)", ".vdot(self._d-1)", "R11.7")
+add("C11", "Poisson energy without the sum of the rates", OPS + "energy_operators.py", "        res = x.sum() - x.log().vdot(self._d)", "        res = -x.log().vdot(self._d)", "R11.6")
 VARIANTS = V
 
 add("C02", "nested sum signs combined with or", OPS + "sum_operator.py", "                if ng:\n                    negnew += [not n for n in op._neg]\n                else:\n                    negnew += list(op._neg)",
@@ -296,6 +467,15 @@ add("C28", "zero mode not set to the volume", "nifty/re/correlated_field.py", " 
 add("C28", "jax matern exponent", "nifty/re/correlated_field.py", "            0.25 * slp * jnp.log1p((self.grid.harmonic_grid.mode_lengths / ctf) ** 2)", "            0.5 * slp * jnp.log1p((self.grid.harmonic_grid.mode_lengths / ctf) ** 2)", "R28.2")
 add("C28", "classic matern volume factor", "nifty/cl/library/correlated_fields.py", "        vol1[1:] = totvol**0.5", "        vol1[1:] = totvol", "R28.2")
 add("C28", "classic matern cutoff power", "nifty/cl/library/correlated_fields.py", "cutoff = VdotOperator(k_squared).adjoint @ cutoff.power(-2.)", "cutoff = VdotOperator(k_squared).adjoint @ cutoff.power(-1.)", "R28.2")
+add("C06", "multi-field norm ignores ord", "nifty/cl/multi_field.py", "        return (nrm ** ord).sum() ** (1./ord)", "        return np.sqrt((nrm ** 2).sum())", "R06.6")
+add("C06", "Field.norm drops ord", "nifty/cl/field.py", "        return self._val.norm(ord=ord)", "        return self._val.norm()", "R06.6")
+add("C06", "weight indexes the shape vector with the sub-domain index", "nifty/cl/field.py",
+    "                new_shape[self._domain.axes[ind][0]:\n                          self._domain.axes[ind][-1]+1] = wgt.shape", "                new_shape[ind] = wgt.size", "R06.8")
+add("C10", "weight indexes the shape vector with the sub-domain index", "nifty/cl/field.py",
+    "                new_shape[self._domain.axes[ind][0]:\n                          self._domain.axes[ind][-1]+1] = wgt.shape", "                new_shape[ind] = wgt.size", "R10.6")
+add("C11", "inverse gamma stores alpha instead of alpha+1", OPS + "energy_operators.py", "        self._alphap1 = alpha+1\n", "        self._alphap1 = alpha\n", "R11.6")
+add("C11", "Bernoulli non-event term in the integer dtype", OPS + "energy_operators.py", ".vdot(self._d-1.)", ".vdot(self._d-1)", "R11.7")
+add("C11", "Poisson energy without the sum of the rates", OPS + "energy_operators.py", "        res = x.sum() - x.log().vdot(self._d)", "        res = -x.log().vdot(self._d)", "R11.6")
 VARIANTS = V
 
 LIP = "nifty/re/likelihood_impl.py"
@@ -304,9 +484,27 @@ add("C12", "poisson metric not inverse", LIP, "    def metric(self, primals, tan
 add("C12", "student-t metric constant", LIP, "        return self.noise_cov_inv((self.dof + 1) / (self.dof + 3) * tangents)", "        return self.noise_cov_inv((self.dof + 1) / (self.dof + 2) * tangents)", None)
 add("C12", "gaussian residual not whitened", LIP, "    def normalized_residual(self, primals):\n        return self.noise_std_inv(self.data - primals)", "    def normalized_residual(self, primals):\n        return self.noise_cov_inv(self.data - primals)", "R12.5")
 add("C12", "poisson energy sign", LIP, "        return sum(primals) - vdot(tree_map(jnp.log, primals), self.data)", "        return sum(primals) + vdot(tree_map(jnp.log, primals), self.data)", "R12.5")
+add("C06", "multi-field norm ignores ord", "nifty/cl/multi_field.py", "        return (nrm ** ord).sum() ** (1./ord)", "        return np.sqrt((nrm ** 2).sum())", "R06.6")
+add("C06", "Field.norm drops ord", "nifty/cl/field.py", "        return self._val.norm(ord=ord)", "        return self._val.norm()", "R06.6")
+add("C06", "weight indexes the shape vector with the sub-domain index", "nifty/cl/field.py",
+    "                new_shape[self._domain.axes[ind][0]:\n                          self._domain.axes[ind][-1]+1] = wgt.shape", "                new_shape[ind] = wgt.size", "R06.8")
+add("C10", "weight indexes the shape vector with the sub-domain index", "nifty/cl/field.py",
+    "                new_shape[self._domain.axes[ind][0]:\n                          self._domain.axes[ind][-1]+1] = wgt.shape", "                new_shape[ind] = wgt.size", "R10.6")
+add("C11", "inverse gamma stores alpha instead of alpha+1", OPS + "energy_operators.py", "        self._alphap1 = alpha+1\n", "        self._alphap1 = alpha\n", "R11.6")
+add("C11", "Bernoulli non-event term in the integer dtype", OPS + "energy_operators.py", ".vdot(self._d-1.)", ".vdot(self._d-1)", "R11.7")
+add("C11", "Poisson energy without the sum of the rates", OPS + "energy_operators.py", "        res = x.sum() - x.log().vdot(self._d)", "        res = -x.log().vdot(self._d)", "R11.6")
 VARIANTS = V
 
 add("C16", "sy cache written symmetrically", "nifty/cl/minimization/descent_minimizers.py", "            self.sy[kmi, k1] = self.s[kmi].s_vdot(self.y[k1])", "            self.sy[kmi, k1] = self.sy[k1, kmi] = self.s[kmi].s_vdot(self.y[k1])", "R16.3")
+add("C06", "multi-field norm ignores ord", "nifty/cl/multi_field.py", "        return (nrm ** ord).sum() ** (1./ord)", "        return np.sqrt((nrm ** 2).sum())", "R06.6")
+add("C06", "Field.norm drops ord", "nifty/cl/field.py", "        return self._val.norm(ord=ord)", "        return self._val.norm()", "R06.6")
+add("C06", "weight indexes the shape vector with the sub-domain index", "nifty/cl/field.py",
+    "                new_shape[self._domain.axes[ind][0]:\n                          self._domain.axes[ind][-1]+1] = wgt.shape", "                new_shape[ind] = wgt.size", "R06.8")
+add("C10", "weight indexes the shape vector with the sub-domain index", "nifty/cl/field.py",
+    "                new_shape[self._domain.axes[ind][0]:\n                          self._domain.axes[ind][-1]+1] = wgt.shape", "                new_shape[ind] = wgt.size", "R10.6")
+add("C11", "inverse gamma stores alpha instead of alpha+1", OPS + "energy_operators.py", "        self._alphap1 = alpha+1\n", "        self._alphap1 = alpha\n", "R11.6")
+add("C11", "Bernoulli non-event term in the integer dtype", OPS + "energy_operators.py", ".vdot(self._d-1.)", ".vdot(self._d-1)", "R11.7")
+add("C11", "Poisson energy without the sum of the rates", OPS + "energy_operators.py", "        res = x.sum() - x.log().vdot(self._d)", "        res = -x.log().vdot(self._d)", "R11.6")
 VARIANTS = V
 
 add("C29", "generic generator applies the transposed amplitude", GMP, "    in_ax = (None if len(diffamp.shape) == 2 else 0, 0)\n    res = vmap(jnp.matmul, in_ax, 0)(diffamp, xi)\n",
@@ -314,11 +512,29 @@ add("C29", "generic generator applies the transposed amplitude", GMP, "    in_ax
 add("C29", "wiener sigma pulled out of the running sum", GMP, "    amp = jnp.sqrt(dt) * sigma\n    return jnp.cumsum(jnp.concatenate((jnp.atleast_1d(x0).flatten(), amp * xi)))",
     "    x0 = jnp.atleast_1d(x0).flatten()\n    walk = sigma * jnp.cumsum(jnp.sqrt(dt) * xi)\n    return jnp.concatenate((x0, x0 + walk))", "R29.1")
 add("C29", "OU small-step branch with half the variance", GMP, "    amp = sigma * jnp.sqrt(1.0 - drift**2)", "    amp = sigma * jnp.sqrt(jnp.where(gamma * dt < 1e-3, gamma * dt, 1.0 - drift**2))", "R29.2")
+add("C06", "multi-field norm ignores ord", "nifty/cl/multi_field.py", "        return (nrm ** ord).sum() ** (1./ord)", "        return np.sqrt((nrm ** 2).sum())", "R06.6")
+add("C06", "Field.norm drops ord", "nifty/cl/field.py", "        return self._val.norm(ord=ord)", "        return self._val.norm()", "R06.6")
+add("C06", "weight indexes the shape vector with the sub-domain index", "nifty/cl/field.py",
+    "                new_shape[self._domain.axes[ind][0]:\n                          self._domain.axes[ind][-1]+1] = wgt.shape", "                new_shape[ind] = wgt.size", "R06.8")
+add("C10", "weight indexes the shape vector with the sub-domain index", "nifty/cl/field.py",
+    "                new_shape[self._domain.axes[ind][0]:\n                          self._domain.axes[ind][-1]+1] = wgt.shape", "                new_shape[ind] = wgt.size", "R10.6")
+add("C11", "inverse gamma stores alpha instead of alpha+1", OPS + "energy_operators.py", "        self._alphap1 = alpha+1\n", "        self._alphap1 = alpha\n", "R11.6")
+add("C11", "Bernoulli non-event term in the integer dtype", OPS + "energy_operators.py", ".vdot(self._d-1.)", ".vdot(self._d-1)", "R11.7")
+add("C11", "Poisson energy without the sum of the rates", OPS + "energy_operators.py", "        res = x.sum() - x.log().vdot(self._d)", "        res = -x.log().vdot(self._d)", "R11.6")
 VARIANTS = V
 
 add("C35", "LOS stride uses the wrong extent", "nifty/cl/library/los_response.py", "        inc[i] = inc[i+1]*shp[i+1]", "        inc[i] = inc[i+1]*shp[i]", "R35.5")
 add("C30", "uniform shortcut for every unit-width interval", SDP, "        and a_min == 0.0\n        and a_max == 1.0\n", "        and a_max - a_min == 1.0\n", "R30.1")
 add("C30", "inverse gamma prior class drops loc", "nifty/re/prior.py", "call = invgamma_prior(self.a, self.scale, self.loc, self.step)", "call = invgamma_prior(self.a, self.scale, step=self.step)", "R30.1")
+add("C06", "multi-field norm ignores ord", "nifty/cl/multi_field.py", "        return (nrm ** ord).sum() ** (1./ord)", "        return np.sqrt((nrm ** 2).sum())", "R06.6")
+add("C06", "Field.norm drops ord", "nifty/cl/field.py", "        return self._val.norm(ord=ord)", "        return self._val.norm()", "R06.6")
+add("C06", "weight indexes the shape vector with the sub-domain index", "nifty/cl/field.py",
+    "                new_shape[self._domain.axes[ind][0]:\n                          self._domain.axes[ind][-1]+1] = wgt.shape", "                new_shape[ind] = wgt.size", "R06.8")
+add("C10", "weight indexes the shape vector with the sub-domain index", "nifty/cl/field.py",
+    "                new_shape[self._domain.axes[ind][0]:\n                          self._domain.axes[ind][-1]+1] = wgt.shape", "                new_shape[ind] = wgt.size", "R10.6")
+add("C11", "inverse gamma stores alpha instead of alpha+1", OPS + "energy_operators.py", "        self._alphap1 = alpha+1\n", "        self._alphap1 = alpha\n", "R11.6")
+add("C11", "Bernoulli non-event term in the integer dtype", OPS + "energy_operators.py", ".vdot(self._d-1.)", ".vdot(self._d-1)", "R11.7")
+add("C11", "Poisson energy without the sum of the rates", OPS + "energy_operators.py", "        res = x.sum() - x.log().vdot(self._d)", "        res = -x.log().vdot(self._d)", "R11.6")
 VARIANTS = V
 
 add("C28", "matern power kind without the square root", "nifty/re/correlated_field.py", '        if self.kind.lower() == "power":\n            spectrum = jnp.sqrt(spectrum)\n', "", "R28.2")
@@ -327,6 +543,15 @@ add("C28", "classic total fluctuation drops mixed terms", "nifty/cl/library/corr
     "        q = 1.\n        for a in self._a:\n            fl = a.fluctuation_amplitude/self.azm\n            q = q*(1 + fl**2)\n        return (q - 1).sqrt()*self.azm",
     "        q = 0.\n        for a in self._a:\n            fl = a.fluctuation_amplitude/self.azm\n            q = q + fl**2\n        return q.sqrt()*self.azm", "R28.3")
 add("C28", "classic slice fluctuation treats own space like the others", "nifty/cl/library/correlated_fields.py", "            if j == space:\n                q = q*fl**2\n", "            if j == space:\n                q = q*(1 + fl**2)\n", "R28.3")
+add("C06", "multi-field norm ignores ord", "nifty/cl/multi_field.py", "        return (nrm ** ord).sum() ** (1./ord)", "        return np.sqrt((nrm ** 2).sum())", "R06.6")
+add("C06", "Field.norm drops ord", "nifty/cl/field.py", "        return self._val.norm(ord=ord)", "        return self._val.norm()", "R06.6")
+add("C06", "weight indexes the shape vector with the sub-domain index", "nifty/cl/field.py",
+    "                new_shape[self._domain.axes[ind][0]:\n                          self._domain.axes[ind][-1]+1] = wgt.shape", "                new_shape[ind] = wgt.size", "R06.8")
+add("C10", "weight indexes the shape vector with the sub-domain index", "nifty/cl/field.py",
+    "                new_shape[self._domain.axes[ind][0]:\n                          self._domain.axes[ind][-1]+1] = wgt.shape", "                new_shape[ind] = wgt.size", "R10.6")
+add("C11", "inverse gamma stores alpha instead of alpha+1", OPS + "energy_operators.py", "        self._alphap1 = alpha+1\n", "        self._alphap1 = alpha\n", "R11.6")
+add("C11", "Bernoulli non-event term in the integer dtype", OPS + "energy_operators.py", ".vdot(self._d-1.)", ".vdot(self._d-1)", "R11.7")
+add("C11", "Poisson energy without the sum of the rates", OPS + "energy_operators.py", "        res = x.sum() - x.log().vdot(self._d)", "        res = -x.log().vdot(self._d)", "R11.6")
 VARIANTS = V
 
 add("C31", "scaled open grid coord2index without padding extent", "nifty/re/multi_grid/grid_impl.py", "        coord = coord / ((self.shape + 2 * self.shifts) * self.distances)[bc]", "        coord = coord / (self.shape * self.distances)[bc]", "R31.4")
@@ -336,4 +561,13 @@ add("C34", "exact trace of the inverse without the data-space shift", "nifty/re/
 add("C20", "data-space branch sees the unconjugated transpose", "nifty/re/evi.py", "    forward_lin_T = _functional_conj(forward_lin_T)\n\n    if signal_space:\n", "\n    if signal_space:\n        forward_lin_T = _functional_conj(forward_lin_T)\n", "R20.1")
 add("C20", "linearised data without the R(position) term", "nifty/re/evi.py", "        data = data - likelihood.forward(position) + forward_lin(position)", "        data = data - likelihood.forward(position)", "R20.1")
 add("C20", "sampling uses the inversion controller", "nifty/cl/library/wiener_filter_curvature.py", "op = SamplingEnabler(M, Sinv, iteration_controller_sampling, Sinv)", "op = SamplingEnabler(M, Sinv, iteration_controller, Sinv)", "R20.3")
+add("C06", "multi-field norm ignores ord", "nifty/cl/multi_field.py", "        return (nrm ** ord).sum() ** (1./ord)", "        return np.sqrt((nrm ** 2).sum())", "R06.6")
+add("C06", "Field.norm drops ord", "nifty/cl/field.py", "        return self._val.norm(ord=ord)", "        return self._val.norm()", "R06.6")
+add("C06", "weight indexes the shape vector with the sub-domain index", "nifty/cl/field.py",
+    "                new_shape[self._domain.axes[ind][0]:\n                          self._domain.axes[ind][-1]+1] = wgt.shape", "                new_shape[ind] = wgt.size", "R06.8")
+add("C10", "weight indexes the shape vector with the sub-domain index", "nifty/cl/field.py",
+    "                new_shape[self._domain.axes[ind][0]:\n                          self._domain.axes[ind][-1]+1] = wgt.shape", "                new_shape[ind] = wgt.size", "R10.6")
+add("C11", "inverse gamma stores alpha instead of alpha+1", OPS + "energy_operators.py", "        self._alphap1 = alpha+1\n", "        self._alphap1 = alpha\n", "R11.6")
+add("C11", "Bernoulli non-event term in the integer dtype", OPS + "energy_operators.py", ".vdot(self._d-1.)", ".vdot(self._d-1)", "R11.7")
+add("C11", "Poisson energy without the sum of the rates", OPS + "energy_operators.py", "        res = x.sum() - x.log().vdot(self._d)", "        res = -x.log().vdot(self._d)", "R11.6")
 VARIANTS = V
